@@ -303,7 +303,9 @@ func replayWitnesses(prop, tier string, hByID map[string]Harness, models map[str
 		}
 		native := h.Replay == "native" || (h.Replay == "auto" && !hasReplacements(h, pkgs[h.Pkg]))
 		// one witness per harness, plus up to two further path samples where replay is native
-		if seenH[h.ID] >= 1 && (!native || seenH[h.ID] >= 3 || !strings.Contains(id, "#p")) {
+		// (not in real mode: a model over the reals need not satisfy the harness assumptions
+		// once its values are rounded to float64)
+		if seenH[h.ID] >= 1 && (!native || h.Mode == "real" || seenH[h.ID] >= 3 || !strings.Contains(id, "#p")) {
 			continue
 		}
 		seenH[h.ID]++
